@@ -7,11 +7,11 @@
 
   <!-- strip whitespace from most elements, but preserve whitespace in inline elements that can contain text -->
   <xsl:strip-space elements="*"/>
-  <xsl:preserve-space elements="a:a a:affectedDocument a:b a:block a:caption a:change a:concept a:courtType a:date a:def
+  <xsl:preserve-space elements="a:a a:abbr a:affectedDocument a:b a:block a:caption a:change a:concept a:courtType a:crossHeading a:date a:def
                                 a:del a:docCommittee a:docDate a:docIntroducer a:docJurisdiction a:docNumber a:docProponent
                                 a:docPurpose a:docStage a:docStatus a:docTitle a:docType a:docketNumber a:entity a:event
                                 a:extractText a:fillIn a:from a:heading a:i a:inline a:ins a:judge a:lawyer a:legislature
-                                a:listConclusion a:listIntroduction a:location a:mmod a:mod a:mref a:narrative
+                                a:listConclusion a:listIntroduction a:listWrapUp a:location a:mmod a:mod a:mref a:narrative
                                 a:neutralCitation a:num a:object a:omissis a:opinion a:organization a:outcome a:p
                                 a:party a:person a:placeholder a:process a:quantity a:quotedText a:recordedTime a:ref
                                 a:relatedDocument a:remark a:rmod a:role a:rref a:scene a:session a:shortTitle a:signature
